@@ -18,10 +18,13 @@ What is NOT true for all amounts, stated precisely:
   larger remainder `float64(left)` may round DOWN; the trigger then leaves less than one float ulp, which the next
   trigger at expiry pays (`expiry_round_down_witness`: amount `2^53+1` is paid as `2^53`, then `1`). The destination
   can still receive exactly its amount by expiry — it needs a second call.
-* the linear schedule before expiry (“never ahead of schedule”) is NOT proved: `amount = uint64(float64(left)·ratio)`
-  with `ratio = float64(period)/float64(full)` goes through three roundings, so a step may be a few units above or
-  below `left·period/full` (for `left ≥ 2^53`: a few ulps of `float64(left)`); the harness oracle checks
-  `vested·(end−start) ≤ amount·(t−start) + 3·(end−start)` for amounts `< 2^53` on every run.
+* the linear schedule (“never ahead of schedule”) is proved EXACTLY, in integers, for `amount · duration ≤ 2^51`
+  (`paid_on_schedule`: any sequence of trigger / unlock / stop transactions at non-decreasing times; `add_on_schedule` for
+  the start): there the float step `uint64(float64(left)·(float64(period)/float64(full)))` is at most
+  `⌊left·period/full⌋` (`Coin.multFloat64_floor`, via the rounding error bound `F64.roundDiv_upper`). Above `2^51` the two
+  roundings can cross an integer: the unchanged code pays ONE unit (for amounts `≥ 2^53`: up to a few ulps) ahead — known
+  finding `C16:paid-ahead-of-schedule:float-rounding`, input in known_findings.jsonl. The model keeps both `Last` and
+  `Move` as the code does; `last_variant_pays_ahead_witness` shows that computing `full` from `Last` breaks the theorem.
 
 Historical (before 9976375): `MultFloat64(left, 1.0)` could exceed `left`; the four negation witnesses of that defect are
 replaced by `capped_at_expiry_witness` (the same inputs now behave correctly); the harness keeps replaying them and
@@ -174,6 +177,381 @@ theorem expiry_round_down_witness :
     scTrigger p1 0 1700001005 =
       .ok ({ p1 with balance := 0, dests := [{ id := 1, amount := 2 ^ 53 + 1, vested := 2 ^ 53 + 1, last := 1700001000, move := 1700001000 }] }, [(1, 1)]) := by
   decide +kernel
+
+/-! ## the linear schedule, exactly -/
+
+/-- a destination is ON SCHEDULE (w.r.t. the pool's start `s` and expiry `e`): what has vested by its last move is at most
+the linear share, exactly in integers; `small` is the exact-float domain. -/
+structure OnSched (s e : Int) (d : Dest) : Prop where
+  vle   : d.vested ≤ d.amount
+  ms    : s ≤ d.move
+  me    : d.move ≤ e
+  sched : (d.vested : Int) * (e - s) ≤ (d.amount : Int) * (d.move - s)
+  small : d.amount * (e - s).toNat ≤ 2 ^ 51
+
+theorem onSched_good {s e t : Int} {d : Dest} (h : OnSched s e d) (hse : s < e) (hspan : e - s < 2 ^ 53)
+    (hmt : d.move ≤ t) (hte : t ≤ e) : Good d t e ∧ leftN d * (e - d.move).toNat ≤ 2 ^ 51 := by
+  have h1 := h.ms; have h2 := h.me; have h3 := h.small; have h4 := h.vle
+  have hdur : 1 ≤ (e - s).toNat := by omega
+  have hA : d.amount ≤ 2 ^ 51 := Nat.le_trans (Nat.le_mul_of_pos_right _ hdur) h3
+  refine ⟨⟨h4, Nat.lt_of_le_of_lt hA (by decide), hmt, hte, by omega⟩, ?_⟩
+  calc leftN d * (e - d.move).toNat ≤ d.amount * (e - s).toNat :=
+        Nat.mul_le_mul (by unfold leftN; omega) (by omega)
+    _ ≤ 2 ^ 51 := h3
+
+/-- one unlock step keeps a destination on schedule. -/
+theorem onSched_step {s e t : Int} {d d' : Dest} {a : Nat} (h : OnSched s e d) (hse : s < e) (hspan : e - s < 2 ^ 53)
+    (hmt : d.move ≤ t) (hte : t ≤ e) (hu : unlockDest d t e = .ok (d', a)) :
+    OnSched s e d' ∧ d'.move ≤ t ∧ d'.id = d.id := by
+  obtain ⟨g, hsm⟩ := onSched_good h hse hspan hmt hte
+  obtain ⟨hin, hale⟩ := unlockDest_sched g hsm hu
+  obtain ⟨d2, a2, hu2, _, hv, ham, hid, hmv, hmv2, _, hmove⟩ := unlockDest_spec g
+  rw [hu] at hu2
+  injection hu2 with hu2; injection hu2 with e1 e2; subst e1 e2
+  have h1 := h.ms; have h2 := h.me; have h4 := h.vle
+  refine ⟨⟨by unfold leftN at hale; omega, by omega, by omega, ?_, by rw [ham]; exact h.small⟩, hmv, hid⟩
+  rw [hv, ham]
+  rcases Nat.eq_zero_or_pos a with h0 | h0
+  · subst h0
+    simp only [Nat.add_zero]
+    have : (d.amount : Int) * (d.move - s) ≤ (d.amount : Int) * (d'.move - s) :=
+      Int.mul_le_mul_of_nonneg_left (by omega) (by omega)
+    exact Int.le_trans h.sched this
+  · rw [hmove h0]
+    have := sched_step (d.vested : Int) (d.amount : Int) (a : Int) s d.move t e (by omega) (by exact_mod_cast h4) (by omega)
+      (by unfold leftN at hale; omega) h1 hmt hte h.sched
+      (by have : ((leftN d : Nat) : Int) = (d.amount : Int) - d.vested := by unfold leftN; omega
+          rw [← this]; exact hin)
+    exact_mod_cast this
+
+/-- the trigger loop keeps every destination on schedule. -/
+theorem triggerLoop_sched (s e t : Int) (hse : s < e) (hspan : e - s < 2 ^ 53) (hte : t ≤ e) :
+    ∀ (ds : List Dest) (bal : Nat) (ds' : List Dest) (bal' : Nat) (ts : Transfers),
+    (∀ d ∈ ds, OnSched s e d ∧ d.move ≤ t) → triggerLoop t e ds bal = .ok (ds', bal', ts) →
+    ∀ d' ∈ ds', OnSched s e d' ∧ d'.move ≤ t := by
+  intro ds
+  induction ds with
+  | nil =>
+    intro bal ds' bal' ts _ h
+    unfold triggerLoop at h
+    injection h with h; injection h with h1 _; subst h1
+    intro d' hd; cases hd
+  | cons d rest ih =>
+    intro bal ds' bal' ts hall h
+    unfold triggerLoop at h
+    obtain ⟨⟨d1, value⟩, hu, h⟩ := bind_ok h
+    have hd := hall d List.mem_cons_self
+    obtain ⟨hs1, hm1, _⟩ := onSched_step hd.1 hse hspan hd.2 hte hu
+    have hrest : ∀ x ∈ rest, OnSched s e x ∧ x.move ≤ t := fun x hx => hall x (List.mem_cons_of_mem _ hx)
+    simp only at h
+    split at h
+    · obtain ⟨⟨rest', bal1, ts1⟩, hrec, h⟩ := bind_ok h
+      injection h with h; injection h with h1 _; subst h1
+      intro d' hd'
+      rcases List.mem_cons.mp hd' with rfl | hd'
+      · exact ⟨hs1, hm1⟩
+      · exact ih _ _ _ _ hrest hrec d' hd'
+    · obtain ⟨bal1, _, h⟩ := bind_ok h
+      obtain ⟨⟨rest', bal2, ts1⟩, hrec, h⟩ := bind_ok h
+      injection h with h; injection h with h1 _; subst h1
+      intro d' hd'
+      rcases List.mem_cons.mp hd' with rfl | hd'
+      · exact ⟨hs1, hm1⟩
+      · exact ih _ _ _ _ hrest hrec d' hd'
+
+theorem clip_bounds (p : Pool) (now : Int) (h : p.start ≤ p.expire) : p.start ≤ clip p now ∧ clip p now ≤ p.expire := by
+  unfold clip; split
+  · omega
+  · split <;> omega
+
+theorem clip_mono (p : Pool) {t1 t2 : Int} (h : t1 ≤ t2) (hse : p.start ≤ p.expire) : clip p t1 ≤ clip p t2 := by
+  unfold clip
+  split <;> split <;> (try split) <;> (try split) <;> omega
+
+/-- every destination of the pool is on schedule, and none has moved after the (clipped) time `clock` of the latest
+transaction. -/
+structure PoolSched (p : Pool) (clock : Int) : Prop where
+  span  : p.start < p.expire
+  dur   : p.expire - p.start < 2 ^ 53
+  dests : ∀ d ∈ p.dests, OnSched p.start p.expire d ∧ d.move ≤ clip p clock
+
+theorem PoolSched.advance {p : Pool} {c1 c2 : Int} (h : PoolSched p c1) (hc : c1 ≤ c2) : PoolSched p c2 :=
+  ⟨h.span, h.dur, fun d hd => ⟨(h.dests d hd).1, Int.le_trans (h.dests d hd).2 (clip_mono p hc (Int.le_of_lt h.span))⟩⟩
+
+theorem triggerPool_sched {p p' : Pool} {ts : Transfers} {clock now : Int} (h : PoolSched p clock) (hc : clock ≤ now)
+    (ht : triggerPool p now = .ok (p', ts)) : PoolSched p' now ∧ p'.start = p.start ∧ p'.expire = p.expire := by
+  unfold triggerPool at ht
+  split at ht
+  · cases ht
+  · obtain ⟨⟨ds, bal, ts'⟩, hl, ht⟩ := bind_ok ht
+    injection ht with ht; injection ht with h1 _; subst h1
+    have h2 := h.advance hc
+    have hb := clip_bounds p now (Int.le_of_lt h.span)
+    refine ⟨⟨h.span, h.dur, ?_⟩, rfl, rfl⟩
+    exact triggerLoop_sched p.start p.expire (clip p now) h.span h.dur hb.2 p.dests p.balance ds bal ts' h2.dests hl
+
+theorem mem_replaceFirst : ∀ (ds : List Dest) (id : Nat) (d' x : Dest), x ∈ replaceFirst ds id d' → x = d' ∨ x ∈ ds := by
+  intro ds
+  induction ds with
+  | nil => intro id d' x h; cases h
+  | cons a ds ih =>
+    intro id d' x h
+    unfold replaceFirst at h
+    split at h
+    · rcases List.mem_cons.mp h with h | h
+      · left; exact h
+      · right; exact List.mem_cons_of_mem _ h
+    · rcases List.mem_cons.mp h with h | h
+      · right; rw [h]; exact List.mem_cons_self
+      · rcases ih id d' x h with h | h
+        · left; exact h
+        · right; exact List.mem_cons_of_mem _ h
+
+theorem vest_sched {p p' : Pool} {ts : Transfers} {z : Bool} {dest : Nat} {clock now : Int} (h : PoolSched p clock) (hc : clock ≤ now)
+    (hv : vest p dest now = .ok (p', ts, z)) : PoolSched p' now ∧ p'.start = p.start ∧ p'.expire = p.expire := by
+  have h2 := h.advance hc
+  have hb := clip_bounds p now (Int.le_of_lt h.span)
+  unfold vest at hv
+  simp only at hv
+  split at hv
+  · cases hv
+  · rename_i d hfind
+    have hmem : d ∈ p.dests := List.mem_of_find?_eq_some hfind
+    obtain ⟨⟨d', value⟩, hu, hv⟩ := bind_ok hv
+    obtain ⟨hs1, hm1, _⟩ := onSched_step (h2.dests d hmem).1 h.span h.dur (h2.dests d hmem).2 hb.2 hu
+    have hall : ∀ x ∈ replaceFirst p.dests dest d', OnSched p.start p.expire x ∧ x.move ≤ clip p now := by
+      intro x hx
+      rcases mem_replaceFirst _ _ _ _ hx with rfl | hx
+      · exact ⟨hs1, hm1⟩
+      · exact h2.dests x hx
+    simp only at hv
+    split at hv
+    · injection hv with hv; injection hv with h1 _; subst h1
+      exact ⟨⟨h.span, h.dur, hall⟩, rfl, rfl⟩
+    · obtain ⟨bal, _, hv⟩ := bind_ok hv
+      injection hv with hv; injection hv with h1 _; subst h1
+      exact ⟨⟨h.span, h.dur, hall⟩, rfl, rfl⟩
+
+theorem drain_sched {p p' : Pool} {ts : Transfers} {c : Nat} {clock : Int} (h : PoolSched p clock)
+    (hd : drain p c = .ok (p', ts)) : PoolSched p' clock ∧ p'.start = p.start ∧ p'.expire = p.expire := by
+  unfold drain at hd
+  split at hd
+  · cases hd
+  · obtain ⟨over, _, hd⟩ := bind_ok hd
+    split at hd
+    · cases hd
+    · obtain ⟨bal, _, hd⟩ := bind_ok hd
+      injection hd with hd; injection hd with h1 _; subst h1
+      exact ⟨⟨h.span, h.dur, h.dests⟩, rfl, rfl⟩
+
+/-- the vesting transactions that can change a pool (besides `delete`, which removes it). -/
+inductive VOp where
+  | trigger (c : Nat) (now : Int)
+  | unlock (c : Nat) (now : Int)
+  | stop (c d : Nat) (now : Int)
+
+def VOp.time : VOp → Int
+  | .trigger _ t => t
+  | .unlock _ t => t
+  | .stop _ _ t => t
+
+/-- one transaction: a failing one leaves the pool unchanged. -/
+def vstep (p : Pool) : VOp → Pool
+  | .trigger c now => match scTrigger p c now with
+    | .ok (p', _) => p'
+    | .error _ => p
+  | .unlock c now => match scUnlock p c now with
+    | .ok (p', _) => p'
+    | .error _ => p
+  | .stop c d now => match scStop p c d now with
+    | .ok (p', _) => p'
+    | .error _ => p
+
+def pick (p : Pool) : Except Err (Pool × Transfers) → Pool
+  | .ok (p', _) => p'
+  | .error _ => p
+
+theorem vstep_eq (p : Pool) (op : VOp) : vstep p op = pick p (match op with
+    | .trigger c now => scTrigger p c now
+    | .unlock c now => scUnlock p c now
+    | .stop c d now => scStop p c d now) := by
+  cases op <;> (unfold vstep pick; rfl)
+
+theorem scTrigger_sched {p p' : Pool} {ts : Transfers} {c : Nat} {clock now : Int} (h : PoolSched p clock) (hc : clock ≤ now)
+    (hr : scTrigger p c now = .ok (p', ts)) : PoolSched p' now ∧ p'.start = p.start ∧ p'.expire = p.expire := by
+  unfold scTrigger at hr
+  split at hr
+  · cases hr
+  · split at hr
+    · cases hr
+    · exact triggerPool_sched h hc hr
+
+theorem scUnlock_sched {p p' : Pool} {ts : Transfers} {c : Nat} {clock now : Int} (h : PoolSched p clock) (hc : clock ≤ now)
+    (hr : scUnlock p c now = .ok (p', ts)) : PoolSched p' now ∧ p'.start = p.start ∧ p'.expire = p.expire := by
+  unfold scUnlock at hr
+  split at hr
+  · have := drain_sched h hr; exact ⟨this.1.advance hc, this.2⟩
+  · obtain ⟨⟨p1, ts1, z⟩, hv, hr⟩ := bind_ok hr
+    simp only at hr
+    split at hr
+    · cases hr
+    · injection hr with hr; injection hr with h1 _; subst h1
+      exact vest_sched h hc hv
+
+theorem scStop_sched {p p' : Pool} {ts : Transfers} {c d : Nat} {clock now : Int} (h : PoolSched p clock) (hc : clock ≤ now)
+    (hr : scStop p c d now = .ok (p', ts)) : PoolSched p' now ∧ p'.start = p.start ∧ p'.expire = p.expire := by
+  unfold scStop at hr
+  split at hr
+  · cases hr
+  · split at hr
+    · cases hr
+    · obtain ⟨⟨p1, ts1, z⟩, hv, hr⟩ := bind_ok hr
+      injection hr with hr; injection hr with h1 _; subst h1
+      obtain ⟨h1, f1, f2⟩ := vest_sched h hc hv
+      exact ⟨⟨h1.span, h1.dur, fun x hx => h1.dests x ((List.mem_filter.mp hx).1)⟩, f1, f2⟩
+
+theorem pick_sched (p : Pool) (r : Except Err (Pool × Transfers)) (clock now : Int) (h : PoolSched p clock) (hc : clock ≤ now)
+    (hok : ∀ p' ts, r = .ok (p', ts) → PoolSched p' now ∧ p'.start = p.start ∧ p'.expire = p.expire) :
+    PoolSched (pick p r) now ∧ (pick p r).start = p.start ∧ (pick p r).expire = p.expire := by
+  cases r with
+  | error e => exact ⟨h.advance hc, rfl, rfl⟩
+  | ok v => obtain ⟨p', ts⟩ := v; exact hok p' ts rfl
+
+theorem vstep_sched (p : Pool) (op : VOp) (clock : Int) (h : PoolSched p clock) (hc : clock ≤ op.time) :
+    PoolSched (vstep p op) op.time ∧ (vstep p op).start = p.start ∧ (vstep p op).expire = p.expire := by
+  rw [vstep_eq]
+  cases op with
+  | trigger c now => exact pick_sched p _ clock now h hc (fun p' ts hr => scTrigger_sched h hc hr)
+  | unlock c now => exact pick_sched p _ clock now h hc (fun p' ts hr => scUnlock_sched h hc hr)
+  | stop c d now => exact pick_sched p _ clock now h hc (fun p' ts hr => scStop_sched h hc hr)
+
+def vrun (p : Pool) (ops : List VOp) : Pool := ops.foldl vstep p
+
+/-- transaction times do not go backwards (a transaction whose time is before a destination's last move fails in the
+contract with `negative coin value`; this theorem is about the others). -/
+def Mono : Int → List VOp → Prop
+  | _, [] => True
+  | c, op :: ops => c ≤ op.time ∧ Mono op.time ops
+
+def lastTime : Int → List VOp → Int
+  | c, [] => c
+  | _, op :: ops => lastTime op.time ops
+
+theorem vrun_sched : ∀ (ops : List VOp) (p : Pool) (clock : Int), PoolSched p clock → Mono clock ops →
+    PoolSched (vrun p ops) (lastTime clock ops) ∧ (vrun p ops).start = p.start ∧ (vrun p ops).expire = p.expire := by
+  intro ops
+  induction ops with
+  | nil => intro p clock h _; exact ⟨h, rfl, rfl⟩
+  | cons op ops ih =>
+    intro p clock h hm
+    obtain ⟨h1, f1, f2⟩ := vstep_sched p op clock h hm.1
+    obtain ⟨h2, g1, g2⟩ := ih (vstep p op) op.time h1 hm.2
+    exact ⟨h2, g1.trans f1, g2.trans f2⟩
+
+/-- **paid_on_schedule** (“never ahead of the linear schedule”, exactly, in integers). Start from a pool whose destinations
+are on schedule (e.g. a freshly added pool: `add_on_schedule`) with `amount · duration ≤ 2^51` for every destination, and run
+ANY sequence of trigger / unlock / stop transactions, by any senders, successful or not, at non-decreasing times. Afterwards,
+for every destination: `vested · (expire − start) ≤ amount · (t − start)` where `t` is the (clipped) time of the latest
+transaction, and `vested ≤ amount`. -/
+theorem paid_on_schedule (p : Pool) (clock : Int) (h : PoolSched p clock) (ops : List VOp) (hm : Mono clock ops) :
+    ∀ d ∈ (vrun p ops).dests,
+      (d.vested : Int) * (p.expire - p.start) ≤ (d.amount : Int) * (clip p (lastTime clock ops) - p.start) ∧
+      d.vested ≤ d.amount := by
+  intro d hd
+  obtain ⟨hs, f1, f2⟩ := vrun_sched ops p clock h hm
+  obtain ⟨ho, hmv⟩ := hs.dests d hd
+  have hclip : clip (vrun p ops) (lastTime clock ops) = clip p (lastTime clock ops) := by
+    unfold clip; rw [f1, f2]
+  rw [hclip] at hmv
+  refine ⟨?_, ho.vle⟩
+  have h1 := ho.sched
+  rw [f1, f2] at h1
+  have : (d.amount : Int) * (d.move - p.start) ≤ (d.amount : Int) * (clip p (lastTime clock ops) - p.start) :=
+    Int.mul_le_mul_of_nonneg_left (by omega) (by omega)
+  exact Int.le_trans h1 this
+
+/-- a freshly added pool is on schedule (nothing vested, `Move = start`). -/
+theorem add_on_schedule (conf : Conf) (client : Nat) (cb : Option Nat) (value : Nat) (now start0 dur : Int)
+    (dests : List (Nat × Nat)) (p : Pool) (h : add conf client cb value now start0 dur dests = .ok p)
+    (hmin : 1 ≤ conf.minDur) (hdur : dur < 2 ^ 53) (hsmall : ∀ x ∈ dests, x.2 * dur.toNat ≤ 2 ^ 51) :
+    PoolSched p p.start := by
+  unfold add at h
+  simp only at h
+  generalize (if start0 = 0 then now else start0) = st at h
+  split at h
+  · cases h
+  split at h
+  · cases h
+  rename_i hd1
+  split at h
+  · cases h
+  split at h
+  · cases h
+  split at h
+  · cases h
+  obtain ⟨want, _, h⟩ := bind_ok h
+  split at h
+  · cases h
+  split at h
+  · cases h
+  split at h
+  · cases h
+  split at h
+  · cases h
+  split at h
+  · cases h
+  injection h with h; subst h
+  have hd : 1 ≤ dur := by omega
+  refine ⟨by simp only; omega, by simp only; omega, ?_⟩
+  intro d hdm
+  simp only [List.mem_map] at hdm
+  obtain ⟨x, hx, rfl⟩ := hdm
+  refine ⟨⟨Nat.zero_le _, Int.le_refl _, by simp only; omega, by simp, ?_⟩, (clip_bounds _ _ (by simp only; omega)).1⟩
+  have : st + dur - st = dur := by omega
+  simp only [this]
+  exact hsmall x hx
+
+/-! ## why `full()` must be computed from `Move`, not from `Last` (seeded change C16-r2-1) -/
+
+/-- the unlock step with `full = end − d.Last` instead of `end − d.Move` (the seeded variant). `Last` is the time of the
+last trigger, `Move` the time of the last transfer that moved tokens; they differ after a trigger that moved nothing. -/
+def unlockDestLast (d : Dest) (now end_ : Int) : Except Err (Dest × Nat) := do
+  let l ← left d
+  let ratio := if now = end_ then F64.one else F64.div (F64.ofInt (now - d.move)) (F64.ofInt (end_ - d.last))
+  let a0 ← liftC (multFloat64 l ratio)
+  let amount := if l < a0 then l else a0
+  let d' ← moveDest d now amount
+  .ok (d', amount)
+
+def tenOver1000 : Dest := { id := 1, amount := 10, vested := 0, last := 0, move := 0 }
+
+/-- 10 tokens over 1000 s, calls at +50 s and +99 s. With `Move` (the code): nothing is paid (0.5 and 0.99 tokens are due,
+`Last` advances, `Move` stays) — on schedule. With `Last`: the second call divides by 950 s instead of 1000 s and pays 1
+token when 0.99 is due: `1·1000 > 10·99`, ahead of the schedule although `Vested ≤ Amount` still holds. -/
+theorem last_variant_pays_ahead_witness :
+    (match unlockDest tenOver1000 50 1000 with
+     | .ok (d1, a1) => (match unlockDest d1 99 1000 with
+        | .ok (d2, a2) => a1 == 0 && a2 == 0 && d1.last == 50 && d1.move == 0 && decide (d2.vested * 1000 ≤ 10 * 99)
+        | _ => false)
+     | _ => false) = true ∧
+    (match unlockDestLast tenOver1000 50 1000 with
+     | .ok (d1, a1) => (match unlockDestLast d1 99 1000 with
+        | .ok (d2, a2) => a1 == 0 && a2 == 1 && d2.vested == 1 && decide (10 * 99 < d2.vested * 1000) && decide (d2.vested ≤ d2.amount)
+        | _ => false)
+     | _ => false) = true := by decide +kernel
+
+/-- non-vacuity of `paid_on_schedule`: the pool of the example above is on schedule, and stays so through zero-moving and
+moving triggers. -/
+example : PoolSched { balance := 100000000, start := 0, expire := 1000, owner := 0, dests := [tenOver1000] } 0 := by
+  refine ⟨by decide, by decide, ?_⟩
+  intro d hd
+  simp only [List.mem_cons, List.not_mem_nil, or_false] at hd
+  subst hd
+  exact ⟨⟨by decide, by decide, by decide, by decide, by decide⟩, by decide⟩
+
+example : (vrun { balance := 100000000, start := 0, expire := 1000, owner := 0, dests := [tenOver1000] }
+    [.trigger 0 50, .trigger 0 99, .unlock 1 150, .trigger 0 500, .trigger 7 600, .trigger 0 1000]).dests =
+    [{ id := 1, amount := 10, vested := 10, last := 1000, move := 1000 }] := by decide +kernel
 
 /-! ## non-vacuity -/
 
